@@ -19,7 +19,7 @@ def V(clause, kind, detail, site=None, **extra):
 
 class Result:
     __slots__ = ("violations", "digest", "shape", "nontrivial", "counters", "probes", "sim_seconds",
-                 "events", "trace", "cover", "inconclusive")
+                 "events", "trace", "cover", "inconclusive", "extra")
 
     def __init__(self):
         self.violations = []
@@ -33,6 +33,7 @@ class Result:
         self.trace = None
         self.cover = {}
         self.inconclusive = None
+        self.extra = {}
 
 
 def digest_of(obj) -> str:
